@@ -1,5 +1,5 @@
 (* Round 4, task R4(a), C07: non-vacuity of the theorems of Proofs/LineageK*.v and
-   TESTS (not proofs) of the full statement for crashes in the middle of a step.
+   computed instances of the full statement for crashes in the middle of a step.
 
    The example continues Proofs/LineageEx.v: the session of client 1 had the IDs
    0, 1, 2 and was destroyed while 0 -> 1 -> 2 were still replaced-ID records in
@@ -13,9 +13,9 @@
    Part 2 (the lk_mid examples): the same checks, by computation, when the process stops
    after EVERY number n = 0..24 of persistence calls of several kinds of steps
    (also two crashes in a row, and with a cache of one entry so that flushes
-   interleave with the saves of an ID change). These are tests of
-   C07K_*_statement on examples; the general theorem for such crash points is
-   not proved (Properties/C07K.v says what is missing).
+   interleave with the saves of an ID change). The general theorem for every crash
+   point is proved (Proofs/LineageF.v; lk_any_theorem below applies it), so these
+   are instances of it.
 
    Everything below is checked by computation on the model or by applying the
    theorems; nothing here is a general claim. *)
@@ -343,3 +343,89 @@ Example lk_any_answers :
    (RErr EExpiredID, None, [], [KGen 3; KGen 4; KGen 5; KGen 6; KGen 7; KGen 8], 9%N);
    (RNone, None, [CkDelete], [KGen 3; KGen 4; KGen 5; KGen 6; KGen 7; KGen 8], 9%N)].
 Proof. vm_compute. reflexivity. Qed.
+
+(* ------------------------------------------------ a crash BEFORE the ending request, in the ended session itself;
+   and the orphan copy, which is OUTSIDE the lineage
+
+   Client 1 creates a session and logs in (IDs 0, 1); 20 s later its ID is due and
+   Start's RegenerateID draws ID 2 and saves the full copy under it - and the
+   process stops between the two saves (rq_crash = Some 1): the replaced-ID record
+   under ID 1 is never written, the response never sent, the client keeps ID 1.
+   Its next request moves the session 1 -> 3 and the handler destroys it. The
+   lineage of the ended ID 3 contains 1 and 0 (dead for ever: lo_theorem, an
+   instance of destroyed_lineage_any with the crash in hs1). It does NOT contain
+   ID 2: that ID was never sent to any client and no record points to or from it;
+   the copy stored under it is the orphan of DESIGN 9.17 A9 /
+   C10C_destroy_removes_orphan_refuted, and somebody who guesses it does get the
+   session. C07K says nothing about such IDs. *)
+Definition lo_h1 : list hop :=
+  [HReq (lx_rq 1 PJar true [SSet 1 2; SLogIn (5, 1)%N false]); HWait 20;
+   HReq (lk_rq 1 PJar false [] (Some 1))].
+Definition lo_end : reqstep := lx_rq 1 PJar false [SGet 1; SDestroy].
+Definition lo_w0 : world := reach lx_cfg lo_h1.
+Definition lo_w1 : world := fst (step lo_w0 (HReq lo_end)).
+Definition lo_h2 : list hop := [HRestart; lx_forge 0 true; lx_forge 1 false; lx_forge 3 false; lx_forge 2 false].
+
+Example lo_life :
+  map (fun o => (ob_res o, option_map fst (ob_start o), option_map fst (ob_final o), ob_cookies o, map fst (ob_store o), ob_jar o))
+      (run lx_cfg (lo_h1 ++ [HReq lo_end])) =
+  [(RSess, Some (KGen 0), Some (KGen 1), [CkLive (KGen 0); CkLive (KGen 1)], [KGen 0; KGen 1], CKey (KGen 1));
+   (RVoid, None, None, [], [KGen 0; KGen 1], CNone);
+   (RCrashed, None, None, [], [KGen 0; KGen 1; KGen 2], CKey (KGen 1));
+   (RSess, Some (KGen 3), Some (KGen 3), [CkLive (KGen 3); CkDelete], [KGen 0; KGen 1; KGen 2], CNone)] /\
+  (* the stop cut off the second save of RegenerateID *)
+  map (fun e => match e with EvSave k r _ => Some (k, r_ref r) | _ => None end)
+      (ob_evs (snd (step (reach lx_cfg (firstn 2 lo_h1)) (HReq (lk_rq 1 PJar false [] None))))) =
+  [None; Some (KGen 2, None); Some (KGen 1, Some (KGen 2))].
+Proof. vm_compute. split; reflexivity. Qed.
+
+Lemma lo_ff1 : Forall ff_hop lo_h1 /\ ~ Forall crash_free lo_h1.
+Proof.
+  split; [repeat constructor|]. intro H. inversion H as [|? ? _ Ha]. inversion Ha as [|? ? _ Hb].
+  inversion Hb as [|? ? Hc _]. discriminate Hc.
+Qed.
+
+Example lo_lineage :
+  lineage (w_st lo_w1) (KGen 3) (KGen 1) /\ lineage (w_st lo_w1) (KGen 3) (KGen 0).
+Proof.
+  assert (H1 : lineage (w_st lo_w1) (KGen 3) (KGen 1)).
+  { eapply lin_ref; [vm_compute; reflexivity | reflexivity | constructor]. }
+  split; [exact H1|]. eapply lin_ref; [vm_compute; reflexivity | reflexivity | exact H1].
+Qed.
+
+(* C07K_destroyed with the crashing hop in hs1, in the ended session *)
+Example lo_theorem :
+  all_steps (lin_claim_k (lineage (w_st lo_w1) (KGen 3))) lo_w1 lo_h2.
+Proof.
+  destruct lo_ff1 as [F1 _].
+  assert (F2 : Forall ff_hop lo_h2) by (repeat constructor).
+  assert (Hne : ob_script (snd (step (reach lx_cfg lo_h1) (HReq lo_end))) <> []) by (vm_compute; discriminate).
+  assert (Hn : nth_error (rq_script lo_end) (length (ob_script (snd (step (reach lx_cfg lo_h1) (HReq lo_end)))) - 1) = Some SDestroy)
+    by (vm_compute; reflexivity).
+  destruct (destroyed_lineage_any lx_cfg lo_h1 lo_end lo_h2 F1 eq_refl eq_refl F2 Hne Hn) as (kn & rc & A1 & _ & _ & A4).
+  assert (E : option_map fst (ob_final (snd (step (reach lx_cfg lo_h1) (HReq lo_end)))) = Some (KGen 3)) by (vm_compute; reflexivity).
+  rewrite A1 in E. cbn [option_map fst] in E. injection E as ->. unfold lo_w1, lo_w0. exact A4.
+Qed.
+
+Example lo_answers :
+  map (fun o => (ob_res o, option_map fst (ob_start o), ob_cookies o)) (run_from lo_w1 lo_h2) =
+  [(RVoid, None, []); (RErr ERefMissing, None, []); (RErr ERefMissing, None, []); (RNone, None, [CkDelete]);
+   (RSess, Some (KGen 2), [])].
+Proof. vm_compute. reflexivity. Qed.
+
+(* the orphan: after the restart a request forging ID 2 obtains the ended session's
+   user and data, and ID 2 is not in the lineage of the ended ID *)
+Example lk_orphan_outside_lineage :
+  (exists rc, ob_res (snd (step (after lo_w1 [HRestart]) (lx_forge 2 false))) = RSess /\
+              ob_start (snd (step (after lo_w1 [HRestart]) (lx_forge 2 false))) = Some (KGen 2, rc) /\
+              r_ref rc = None /\ r_user rc = Some (5, 0)%N /\ r_data rc = Some [(1, 2)%N]) /\
+  ~ lineage (w_st lo_w1) (KGen 3) (KGen 2) /\
+  ~ lineage (w_st (after lo_w1 [HRestart])) (KGen 3) (KGen 2).
+Proof.
+  split; [eexists; vm_compute; repeat split|].
+  assert (Hno : forall s, (exists r, L s (KGen 2) = Some r /\ r_ref r = None) -> ~ lineage s (KGen 3) (KGen 2)).
+  { intros s (r & HL & Hr) H. inversion H as [E|k Hk HL'|k r' t HL' Hr' Ht]; subst.
+    - rewrite HL in HL'. discriminate.
+    - rewrite HL in HL'. injection HL' as <-. rewrite Hr in Hr'. discriminate. }
+  split; apply Hno; eexists; (split; [vm_compute; reflexivity | reflexivity]).
+Qed.
